@@ -49,4 +49,56 @@ PROPS = {
         "min_counters": {"pfx_cb": 1000},
         "assumptions": ["callback log = set rebuilt purely from pfx_update_fp invocations"],
     },
+    "C10": {
+        "level": "exploration",
+        "rule": ("seeded histories of add_entry/remove_entry/src_remove/copy_except_socket+swap+notify_diff on a private router-key "
+                 "table; AS numbers chosen so that tommy_inthash_u32 shares low bits (same bucket, different AS), 2-6 SKIs shared "
+                 "across ASes, 3 sources, table size walking across the hash table's grow/shrink thresholds (32, 64, 128). After "
+                 "operations get_all for every (AS, SKI) of the universe and search_by_ski for every SKI are compared with a std::set "
+                 "model, and the callback log with the model. Non-trivial: >= 10 operations and >= 1 lookup; distinct = run hashes."),
+        "suites": [
+            {"name": "spki-hist", "kind": "random", "scn": "spki", "variant": "asan", "opts": {"maxops": 400},
+             "runs_quick": 3000, "time_quick": 35, "runs_thorough": 200000, "time_thorough": 600},
+        ],
+        "min_counters": {"lookup_checks": 500, "spki_cb": 500},
+        "expected_probes": ["probe_hash_grow", "probe_hash_grow2", "probe_hash_shrink", "probe_srcrm_nonempty"],
+        "assumptions": ["model: std::set of (asn, ski, spki, source)"],
+    },
+    "C16": {
+        "level": "exploration",
+        "rule": ("one writer task (add/remove/src_remove on a private pfx or spki table) and 1-3 reader tasks (validate, validate_r, "
+                 "for_each v4/v6, get_all, search_by_ski) run under the seeded scheduler with basic-block-granularity preemption "
+                 "(mean slice 3..200 coverage guards, or only at lock operations). O1: every read must equal the model's answer in some "
+                 "writer state between its invoke and return stamps (global event sequence numbers), monotone along real-time order. "
+                 "O2: the same plans in the ThreadSanitizer build; the scheduler baton is invisible to TSan, so any report on table state "
+                 "is a race the library's own locks do not order. Non-trivial: at least one read overlapped a write; distinct = run hashes; "
+                 "distinct_schedules = distinct scheduling-decision hashes."),
+        "suites": [
+            {"name": "conc-lin", "kind": "random", "scn": "conc", "variant": "asan", "opts": {},
+             "runs_quick": 2500, "time_quick": 30, "runs_thorough": 200000, "time_thorough": 500},
+            {"name": "conc-tsan", "kind": "random", "scn": "conc", "variant": "tsan", "opts": {},
+             "runs_quick": 800, "time_quick": 25, "runs_thorough": 60000, "time_thorough": 400},
+        ],
+        "min_counters": {"reads_overlapping_writes": 500},
+        "assumptions": ["single writer => writer states are totally ordered; src_remove is two instants (IPv4 then IPv6), as the API does",
+                        "TSan sees accesses through memcpy/memcmp interceptors only when made by instrumented code paths (ignore_interceptors_accesses=1 silences the uninstrumented harness)"],
+    },
+    "C18": {
+        "level": "fault_enumeration",
+        "rule": ("for each base history (prefix table, router-key table, later: whole synchronisations) the plan is first run fault-free "
+                 "with the simulated allocator installed through lrtr_set_alloc_functions and its allocation calls are counted (N, "
+                 "deterministic); then it is re-run failing exactly the k-th call, for every k in 1..N (thorough) or a stratified sample "
+                 "(quick). Oracles: no crash/sanitizer report, an operation that reports an error leaves the model unchanged, all later "
+                 "operations conform to the model; in failure-free runs the ledger must be empty after the tables are freed and no block "
+                 "may be released through libc free(). Non-trivial: >= 10 operations; distinct = run hashes."),
+        "suites": [
+            {"name": "pfx-alloc", "kind": "allocsweep", "scn": "pfx", "variant": "asan", "opts": {"maxops": 40, "query_budget": 30},
+             "runs_quick": 40, "time_quick": 25, "k_per_base_quick": 40, "runs_thorough": 600, "time_thorough": 400},
+            {"name": "spki-alloc", "kind": "allocsweep", "scn": "spki", "variant": "asan", "opts": {"maxops": 80, "small": 0},
+             "runs_quick": 40, "time_quick": 25, "k_per_base_quick": 40, "runs_thorough": 600, "time_thorough": 400},
+        ],
+        "min_counters": {"allocsweep_points": 200},
+        "exhaustive_note": "thorough tier: every allocation index of every base history is failed once (exhaustive per base history)",
+        "assumptions": ["single allocation failure per run (plus random multi-failure swarm runs)"],
+    },
 }
